@@ -870,6 +870,14 @@ func c01PoolScenarios(tier string) []scenario {
 func c05PoolScenarios(tier string) []scenario {
 	var scs []scenario
 	progs := [][]string{{"A.writeFail"}, {"A.readPartial", "A.writeFail"}, {"A.writeFail", "A.peerClose"}, {"A.writeFail", "B.writeFail"}}
+	// readers that start from pools filled by an earlier, closed connection and read their
+	// (context takeover) messages alternately: every message received is the one that was sent
+	for _, k := range []connCfg{{Client: false, Flate: true}, {Client: true, Flate: true}} {
+		for _, pr := range [][]string{{"A.readAll", "B.readAll", "A.readAll", "B.readAll"}, {"B.readAll", "A.readAll", "A.readAll", "B.readAll"}} {
+			prm := c07Params{K: k, Prog: pr, Prefill: true, Prop: "C05"}
+			scs = append(scs, scenario{Name: "pools/" + prm.name(), Cfg: explore.Config{P: 0, Horizon: 60e9}, Setup: c07Setup(prm), Group: "pools/" + k.String()})
+		}
+	}
 	for _, k := range []connCfg{{Client: false, Flate: true}, {Client: true, Flate: true}, {Client: false, Flate: true, CNCT: true, SNCT: true}, {Client: true, Flate: true, CNCT: true, SNCT: true}} {
 		for _, pr := range progs {
 			prm := c07Params{K: k, Prog: pr, Prop: "C05"}
